@@ -203,11 +203,13 @@ func (t *Torrent) run(ctx context.Context) {
 		case <-requestChan:
 			periodicRequest(ctx, t)
 		case <-ticker.C:
+			verifYield("run.tick")
 			maybeConnect(ctx, t)
 			if t.infoComplete == 0 {
 				requestMetadata(t, nil)
 			}
 		case <-slowTicker.C:
+			verifYield("run.slowtick")
 			maybeUnchoke(t, true)
 			t.known.Expire()
 			if len(t.requested.pieces) == 0 &&
